@@ -36,6 +36,34 @@ Proof.
   unfold ctx_check, is_composing. cbn. reflexivity.
 Qed.
 
+(** ---- Context::Commit: the record pushed onto the commit history first changes neither
+    the commit text nor the formatter's options ---- *)
+Lemma ctx_commit_text_ext c c' : cx_opts c' = cx_opts c -> cx_comp c' = cx_comp c -> ctx_commit_text c' = ctx_commit_text c.
+Proof. intros E1 E2. unfold ctx_commit_text, get_option. rewrite E1, E2. reflexivity. Qed.
+Lemma format_text_ext c c' t : cx_opts c' = cx_opts c -> format_text c' t = format_text c t.
+Proof. intros E1. unfold format_text, get_option. rewrite E1. reflexivity. Qed.
+Lemma ctx_check_opts c b e : cx_opts (ctx_check c b e) = cx_opts c.
+Proof. destruct b; reflexivity. Qed.
+Lemma ctx_check_comp c b e : cx_comp (ctx_check c b e) = cx_comp c.
+Proof. destruct b; reflexivity. Qed.
+
+Lemma commit_composing s :
+  is_composing (st_ctx s) = true ->
+  st_commit (fst (commit cfg translate s))
+  = st_commit s ++ format_text (st_ctx s) (fst (ctx_commit_text (st_ctx s))) /\
+  is_composing (st_ctx (fst (commit cfg translate s))) = false.
+Proof.
+  intros Hc. unfold commit. rewrite Hc. cbn [negb].
+  destruct (hist_push_comp (cf_hist_guard cfg) (cx_hist (st_ctx s)) (cx_comp (st_ctx s)) (cx_input (st_ctx s))) as [[h okh] live].
+  set (c1 := ctx_check (ctx_check (ctx_with_hist (st_ctx s) h) okh ErrSubstr) live ErrDangling).
+  assert (Eo : cx_opts c1 = cx_opts (st_ctx s)) by (unfold c1; rewrite !ctx_check_opts; reflexivity).
+  assert (Ec : cx_comp c1 = cx_comp (st_ctx s)) by (unfold c1; rewrite !ctx_check_comp; reflexivity).
+  rewrite (ctx_commit_text_ext (st_ctx s) c1 Eo Ec).
+  destruct (ctx_commit_text (st_ctx s)) as [text ok]. rewrite (format_text_ext (st_ctx s) c1 _ Eo).
+  cbn [fst st_commit st_ctx st_with_ctx sink].
+  split; [reflexivity | apply clear_not_composing].
+Qed.
+
 (** ---- C03 (1): commit_composition delivers the preview reported just before ---- *)
 Theorem commit_is_preview s :
   get_option (st_ctx s) opt_full_shape = false ->
@@ -45,12 +73,15 @@ Theorem commit_is_preview s :
   is_composing (st_ctx (fst r)) = false /\
   snd r = RBool (negb (match st_commit (fst r) with [] => true | _ => false end)).
 Proof.
-  intros Hfs. cbn [exec fst snd]. unfold view_of, commit.
-  destruct (ctx_commit_text (st_ctx s)) as [text ok] eqn:Et. destruct (menu_view cfg (st_ctx s)) as [mv ok3].
-  cbn [fst v_preview]. destruct (is_composing (st_ctx s)) eqn:Ec; cbn [negb fst].
-  - unfold format_text. rewrite Hfs. cbn [negb]. unfold sink. cbn [st_commit st_ctx st_with_ctx fst].
-    split; [reflexivity|]. split; [apply clear_not_composing | reflexivity].
-  - rewrite app_nil_r. split; [reflexivity|]. split; [exact Ec | reflexivity].
+  intros Hfs. cbn [exec fst snd]. unfold view_of.
+  destruct (is_composing (st_ctx s)) eqn:Ec.
+  - destruct (commit_composing s Ec) as (C1 & C2). rewrite C1, C2.
+    destruct (ctx_commit_text (st_ctx s)) as [text ok] eqn:Et. destruct (menu_view cfg (st_ctx s)) as [mv ok3].
+    cbn [fst v_preview]. unfold format_text. rewrite Hfs. cbn [negb].
+    split; [reflexivity|]. split; reflexivity.
+  - unfold commit. rewrite Ec. cbn [negb fst].
+    destruct (ctx_commit_text (st_ctx s)) as [text ok] eqn:Et. destruct (menu_view cfg (st_ctx s)) as [mv ok3].
+    cbn [fst v_preview]. rewrite app_nil_r. split; [reflexivity|]. split; [exact Ec | reflexivity].
 Qed.
 
 (** ---- C03 (2): selecting a displayed candidate that covers the rest of the input ---- *)
@@ -80,7 +111,7 @@ Lemma on_select_confirmed s1 g1 r :
   let s' := if get_option (st_ctx s1) opt_auto_commit
             then fst (commit cfg translate (st_with_ctx s1 c2))
             else st_with_ctx s1 (ctx_with_comp c2 (fst (forward (cx_comp c2)))) in
-  on_select cfg translate s1 = mkSt (st_ctx s') (st_nav_input s') [] (st_commit s').
+  on_select cfg translate s1 = mkSt (st_ctx s') (st_nav_input s') [] (st_commit s') (st_odd s').
 Proof.
   intros Hsegs Hend. cbv zeta. unfold on_select. rewrite Hsegs, Hend, Nat.eqb_refl.
   unfold sg_set_back. rewrite Hsegs. reflexivity.
@@ -149,17 +180,16 @@ Proof.
   change (get_option (st_ctx s1) opt_auto_commit) with (get_option (st_ctx s) opt_auto_commit).
   destruct (get_option (st_ctx s) opt_auto_commit); cbn [st_ctx st_commit].
   - (* delivered at once *)
-    unfold commit. cbn [st_ctx st_with_ctx].
-    assert (Hcomp : is_composing (ctx_with_comp (st_ctx s1) (mkSegm ci (g2 :: r))) = true).
+    assert (Hcomp : is_composing (st_ctx (st_with_ctx s1 (ctx_with_comp (st_ctx s1) (mkSegm ci (g2 :: r))))) = true).
     { unfold is_composing, sg_empty. cbn. now rewrite orb_true_r. }
-    rewrite Hcomp. cbn [negb].
+    destruct (commit_composing _ Hcomp) as (C1 & C2). rewrite C1, C2. cbn [st_ctx st_with_ctx st_commit].
     pose proof (commit_text_confirmed (st_ctx s1) ci g2 r cd [] Hsel ltac:(lia) ltac:(lia) (or_introl eq_refl) Hdumb) as Ht.
     cbn [app] in Ht.
     destruct (ctx_commit_text (ctx_with_comp (st_ctx s1) (mkSegm ci (g2 :: r)))) as [text ok]. cbn [fst] in Ht. subst text.
     unfold format_text.
     change (get_option (ctx_with_comp (st_ctx s1) _) opt_full_shape) with (get_option (st_ctx s) opt_full_shape).
-    rewrite Hfs. cbn [negb fst st_commit st_ctx sink st_with_ctx].
-    rewrite Hconf. split; [reflexivity | apply clear_not_composing].
+    rewrite Hfs. cbn [negb fst].
+    rewrite Hconf. split; reflexivity.
   - (* reported as the new preview *)
     cbn [st_with_ctx st_commit st_ctx]. split; [reflexivity|].
     cbn [cx_comp ctx_with_comp].
@@ -201,13 +231,14 @@ Proof. exists t. reflexivity. Qed.
 Lemma commit_appends s : appends s (fst (commit cfg translate s)).
 Proof.
   unfold commit. destruct (negb (is_composing (st_ctx s))); [apply appends_refl|].
-  destruct (ctx_commit_text (st_ctx s)) as [t ok]. cbn [fst]. eexists. reflexivity.
+  destruct (hist_push_comp _ _ _ _) as [[h okh] live].
+  match goal with |- context [ctx_commit_text ?c] => destruct (ctx_commit_text c) as [t ok] end. cbn [fst]. eexists. reflexivity.
 Qed.
 
 Lemma on_select_appends s : appends s (on_select cfg translate s).
 Proof.
   unfold on_select.
-  match goal with |- appends s (mkSt (st_ctx ?x) _ _ (st_commit ?x)) => assert (H : appends s x) end.
+  match goal with |- appends s (mkSt (st_ctx ?x) _ _ (st_commit ?x) _) => assert (H : appends s x) end.
   { destruct (sg_segs (cx_comp (st_ctx s))) as [|g0 r]; [apply with_ctx_appends|].
     destruct (s_end (seg_close g0) =? length (cx_input (st_ctx s))).
     - match goal with |- context [if ?b then _ else _] => destruct b end;
@@ -401,26 +432,77 @@ Proof.
   apply sink_appends.
 Qed.
 
+Lemma on_ctx_appends s f : appends s (on_ctx s f).
+Proof. apply with_ctx_appends. Qed.
+
+Lemma pair_punct_appends s fs b : appends s (fst (pair_punct cfg translate s fs b)).
+Proof.
+  unfold pair_punct. destruct (sg_segs (cx_comp (st_ctx s))) as [|g r]; [apply appends_refl|].
+  destruct (negb (status_geb SVoid (s_status g)) && has_tag TPunct (s_tags g)); [|apply appends_refl].
+  destruct (s_menu g) as [m|]; [|apply appends_refl].
+  destruct (menu_prepare m 2 <? 2)%N; [apply appends_refl|]. cbn [fst].
+  eapply appends_trans; [|apply confirm_appends]. apply appends_eq. reflexivity.
+Qed.
+
+Lemma punctuator_appends s k : appends s (fst (punctuator_process cfg translate s k)).
+Proof.
+  unfold punctuator_process.
+  destruct (k_release k || k_ctrl k || k_alt k || k_super k); [apply appends_refl|].
+  destruct ((k_code k <? 32) || (127 <=? k_code k))%Z; [apply appends_refl|].
+  cbv zeta.
+  destruct (get_option (st_ctx s) opt_ascii_punct); [apply appends_refl|].
+  match goal with |- appends s (fst (if ?b then _ else _)) => destruct b end;
+    [cbn [fst]; eapply appends_trans; [apply on_ctx_appends | apply commit_appends]|].
+  match goal with |- appends s (fst (if ?b then _ else _)) => destruct b end; [apply appends_refl|].
+  match goal with |- appends s (fst (if ?b then _ else _)) => destruct b end.
+  { match goal with |- appends s (fst (if ?b then _ else _)) => destruct b end; [|apply on_ctx_appends].
+    destruct (cf_digit_sep_commit cfg); cbn [fst].
+    - eapply appends_trans; [apply on_ctx_appends | apply commit_appends].
+    - eapply appends_trans; [apply on_ctx_appends | apply on_ctx_appends]. }
+  destruct (punct_lookup cfg (cx_opts (st_ctx s)) (byte_of_N (Z.to_N (k_code k)))) as [d|]; [|apply appends_refl].
+  destruct (alternate_punct (st_ctx s) (byte_of_N (Z.to_N (k_code k))) d) as [c1 alt].
+  destruct alt; [apply with_ctx_appends|].
+  destruct (reconvert_digit_separator cfg translate c1 (byte_of_N (Z.to_N (k_code k)))) as [c2 rec].
+  match goal with |- context [punct_is_translated (st_ctx ?x) TPunct] => set (s1 := x) end.
+  assert (H1 : appends s s1).
+  { subst s1. destruct rec; [eapply appends_trans; apply with_ctx_appends|].
+    eapply appends_trans; [apply with_ctx_appends | apply on_ctx_appends]. }
+  clearbody s1. cbn [fst].
+  destruct (punct_is_translated (st_ctx s1) TPunct); [|exact H1].
+  destruct d as [v | l | [cm|] [pr|]]; try exact H1; (eapply appends_trans; [exact H1|]).
+  - apply confirm_appends.
+  - apply commit_appends.
+  - apply commit_appends.
+  - apply pair_punct_appends.
+Qed.
+
+Lemma proc_of_appends i s k : appends s (fst (proc_of cfg translate i s k)).
+Proof.
+  destruct i; cbn [proc_of];
+    [apply speller_appends | apply punctuator_appends | apply selector_appends | apply navigator_appends | apply editor_appends].
+Qed.
+
+Lemma run_processors_appends ps k :
+  (forall p, In p ps -> forall x, appends x (fst (p x k))) -> forall s, appends s (fst (run_processors ps s k)).
+Proof.
+  induction ps as [|p r IH]; intros Hp s; cbn [run_processors]; [apply appends_refl|].
+  pose proof (Hp p (or_introl eq_refl) s) as H1. destruct (p s k) as [s1 ret]. cbn [fst] in H1.
+  destruct ret; cbn [fst]; try exact H1. eapply appends_trans; [exact H1|]. apply IH. intros q Hq. apply Hp. right; exact Hq.
+Qed.
+
 Lemma process_key_appends s k : appends s (fst (process_key cfg translate s k)).
 Proof.
-  unfold process_key, processors. cbn [run_processors].
-  assert (Sh : forall x, appends s x -> appends s (fst (let (s2, ret2) := shape_process x k in
-                 match ret2 with PAccepted => (s2, true) | _ => (s2, false) end))).
-  { intros x Hx. pose proof (shape_appends x k) as Hs.
-    destruct (shape_process x k) as [sx rx]. cbn [fst] in Hs.
-    destruct rx; cbn [fst]; eapply appends_trans; eassumption. }
-  pose proof (speller_appends s k) as H1.
-  destruct (speller_process cfg translate s k) as [s1 r1]. cbn [fst] in H1.
-  destruct r1; cbn [fst]; try exact H1; try (apply (Sh s1 H1)).
-  pose proof (selector_appends s1 k) as H2'. pose proof (appends_trans _ _ _ H1 H2') as H2. clear H2'.
-  destruct (selector_process cfg translate s1 k) as [s2 r2]. cbn [fst] in H2.
-  destruct r2; cbn [fst]; try exact H2; try (apply (Sh s2 H2)).
-  pose proof (navigator_appends s2 k) as H3'. pose proof (appends_trans _ _ _ H2 H3') as H3. clear H3'.
-  destruct (navigator_process cfg translate s2 k) as [s3 r3]. cbn [fst] in H3.
-  destruct r3; cbn [fst]; try exact H3; try (apply (Sh s3 H3)).
-  pose proof (editor_appends s3 k) as H4'. pose proof (appends_trans _ _ _ H3 H4') as H4. clear H4'.
-  destruct (editor_process cfg translate s3 k) as [s4 r4]. cbn [fst] in H4.
-  destruct r4; cbn [fst]; try exact H4; try (apply (Sh s4 H4)).
+  unfold process_key.
+  assert (H1 : appends s (fst (run_processors (processors cfg translate) s k))).
+  { apply run_processors_appends. intros p Hp x. unfold processors in Hp. apply in_map_iff in Hp as (i & <- & _).
+    apply proc_of_appends. }
+  destruct (run_processors (processors cfg translate) s k) as [s1 ret]. cbn [fst] in H1.
+  assert (H2 : appends s (on_ctx s1 (fun c => ctx_with_hist c (hist_push_key (cx_hist c) k))))
+    by (eapply appends_trans; [exact H1 | apply on_ctx_appends]).
+  pose proof (shape_appends (on_ctx s1 (fun c => ctx_with_hist c (hist_push_key (cx_hist c) k))) k) as Hs.
+  destruct ret; cbn [fst]; try exact H1; cbv zeta;
+    destruct (shape_process (on_ctx s1 (fun c => ctx_with_hist c (hist_push_key (cx_hist c) k))) k) as [sx rx];
+    cbn [fst] in Hs; destruct rx; cbn [fst]; eapply appends_trans; eassumption.
 Qed.
 
 Lemma on_current_page_appends s i verb :
@@ -510,7 +592,7 @@ Proof.
     destruct (cx_err (st_ctx (match ve with Some e => st_with_ctx s (ctx_fail (st_ctx s) e) | None => s end))) eqn:Ee;
       [discriminate|]. intros _. cbn [fst snd read_of].
     split; [reflexivity|]. split; [destruct ve; cbn; exact Ec | eexists; reflexivity].
-  - set (s1 := mkSt (st_ctx s) (st_nav_input s) (st_spans s) []).
+  - set (s1 := mkSt (st_ctx s) (st_nav_input s) (st_spans s) [] (st_odd s)).
     destruct (view_of cfg s1) as [v ve].
     destruct (cx_err (st_ctx (match ve with Some e => st_with_ctx s1 (ctx_fail (st_ctx s1) e) | None => s1 end))) eqn:Ee;
       [discriminate|]. intros _. cbn [fst snd read_of].
